@@ -49,7 +49,7 @@ class ScaleBias(Contract):
                 for b in BIASES:
                     if s == 1 and b == 0:
                         continue
-                    for route in ('ctor', 'call', 'setitem', 'getitem') + (('ctor_int',) if s in (Fraction(1), Fraction(2), Fraction(1, 2)) else ()):
+                    for route in ('ctor', 'call', 'setitem', 'getitem', 'raw_store') + (('ctor_int',) if s in (Fraction(1), Fraction(2), Fraction(1, 2)) else ()):
                         k += 1
                         modes = [MODES[k % len(MODES)]] if tier == 'quick' else MODES[::3]
                         for rule, mode in modes:
@@ -84,6 +84,9 @@ class ScaleBias(Contract):
             for v in vc:
                 D.assume(And(M(v) < 2**40, M(v) > -2**40))      # core domain: v - b and (v - b)/s are exact in float64
             return {'vc': vc}
+        if cfg['route'] == 'raw_store':
+            sg, n, f = cfg['fmt']
+            return {'m': D.int('m', -2**14, 2**14), 'm2': D.int('m2', -2**14, 2**14), 'code': codes_in(D, 'code', 1, sg, n)[0]}
         if cfg['route'] == 'infer_int':
             return {'vi': D.int('vi', 0 if cfg['carrier'] == 'arr:uint8' else -2**9, 255 if cfg['carrier'] == 'arr:uint8' else 2**9)}
         return {'m': D.int('m', lo, lim), 'm2': D.int('m2', -lim, lim)}
@@ -126,6 +129,11 @@ class ScaleBias(Contract):
                 x = P.Fxp(affine_input(P, inp['m2'], s, b), sg, n, f, **kw)
                 x.reset()
                 x(v)
+            elif route == 'raw_store':
+                # a raw code stored into an object that carries a scale and a bias: stored as it is, read back scaled
+                x = P.Fxp(affine_input(P, inp['m2'], s, b), sg, n, f, **kw)
+                x.reset()
+                x.set_val(inp['code'], raw=True)
             elif route == 'getitem':
                 x = P.Fxp([affine_input(P, inp['m2'], s, b), v], sg, n, f, **kw)
                 y = x[1]; ys = x[0:2]
@@ -167,6 +175,11 @@ class ScaleBias(Contract):
             out['infer_minimal_frac'] = Or(F == 0, Not(is_int(scale2(w, F - 1)))) if isinstance(F, int) and F > 0 else True
             return out
         sg, n, f = cfg['fmt']
+        if cfg['route'] == 'raw_store':
+            out['format'] = And(S == sg, W == n, F == f)
+            out['raw_code_stored'] = eq(z, M(inp['code']))
+            out['no_range_flags'] = And(Not(B(st['overflow'])), Not(B(st['underflow'])))
+            return out
         R = ROUND(scale2(w, f), cfg['rule'])
         out['format'] = And(S == sg, W == n, F == f)
         out['code_eq_Q'] = eq(z, OVF(R, sg, n, cfg['mode']))
